@@ -1060,8 +1060,9 @@ func (a *allowerContext) newMembershipAllower(authEvents AuthEventProvider, even
 	if m.senderMember, err = NewMemberContentFromAuthEvents(authEvents, spec.SenderID(m.senderID)); err != nil {
 		return
 	}
-	// If this event comes from a third_party_invite, we need to check it against the original event.
-	if m.newMember.ThirdPartyInvite != nil {
+	// If this event is an invite that comes from a third_party_invite, we need to check it against the
+	// original event. On any other membership a third_party_invite key plays no part in the auth rules.
+	if m.newMember.Membership == spec.Invite && m.newMember.ThirdPartyInvite != nil {
 		token := m.newMember.ThirdPartyInvite.Signed.Token
 		if m.thirdPartyInvite, err = NewThirdPartyInviteContentFromAuthEvents(authEvents, token); err != nil {
 			return
